@@ -2,7 +2,7 @@
 from fractions import Fraction as Fr
 import numpy as np
 from harness import coqio as Q
-from harness.impl import exc_name
+from harness.impl import poke_wcs, poke, exc_name
 
 CORR = "C15_corr"
 IMPORTS = ["M_Wrappers", "M_Unwrap"]
@@ -113,6 +113,7 @@ def _apply_chain(case, base):
     if case["kind"] == "cube":
         cube = NDCube(np.zeros(tuple(case["shape"])), wcs=base)
         for st in case["steps"]:
+            poke(cube, case["key"])
             cube = cube[Q.dec_items(st[1])] if st[0] == "slice" else cube.rebin(tuple(st[1]))
         return cube.wcs.low_level_wcs, cube
     w = base
@@ -165,6 +166,7 @@ def run(case):
     except Exception as e:  # noqa
         return {"out": {"t": "skip"}, "oracle": {"ok": True, "why": f"chain not constructible: {exc_name(e)}"}}
     chain = _read_chain(top)
+    poke_wcs(top, case["key"])
     try:
         fw, dropped = unwrap_wcs_to_fitswcs(top)
         exc = None
